@@ -449,10 +449,12 @@ func (x *Exec) runBlock(st *State, fr *Frame, b *ssa.BasicBlock, idx int, prev *
 			switch t := in.(type) {
 			case *ssa.If, *ssa.Jump, *ssa.Return, *ssa.Panic:
 				term = in
-			case *ssa.Call, *ssa.MakeSlice:
+			case *ssa.Call, *ssa.MakeSlice, *ssa.Slice:
 				var rs []Result
 				if c, ok := in.(*ssa.Call); ok {
 					rs = x.doCall(st, fr, c.Common(), c)
+				} else if sl, ok := in.(*ssa.Slice); ok {
+					rs = x.sliceFork(st, fr, sl)
 				} else {
 					ms := in.(*ssa.MakeSlice)
 					if x.get(st, fr, ms.Len).(*Term).IsConst() && x.get(st, fr, ms.Cap).(*Term).IsConst() {
@@ -526,7 +528,9 @@ func (x *Exec) runBlock(st *State, fr *Frame, b *ssa.BasicBlock, idx int, prev *
 			prev, b, idx = b, b.Succs[0], 0
 			continue
 		case *ssa.Return:
-			x.Stats.Paths++
+			if fr.depth <= 1 {
+				x.Stats.Paths++
+			}
 			var v Value
 			switch len(t.Results) {
 			case 0:
@@ -956,8 +960,6 @@ func (x *Exec) step(st *State, fr *Frame, in ssa.Instruction) bool {
 			return false
 		}
 		x.store(st, p, x.get(st, fr, t.Val))
-	case *ssa.Slice:
-		return x.sliceOp(st, fr, t)
 	case *ssa.MakeMap:
 		id := st.alloc(&MapObj{})
 		fr.locals[t] = &MapV{Obj: id}
@@ -1159,6 +1161,57 @@ func (x *Exec) concreteInt(st *State, t *Term, what string, in ssa.Instruction) 
 		return sext(t.U, t.S.W), true
 	}
 	return 0, false
+}
+
+// sliceFork evaluates a slice expression; symbolic bounds are case-split over the feasible
+// values in [0, cap] (each case is one path with a concrete bound).
+func (x *Exec) sliceFork(st *State, fr *Frame, t *ssa.Slice) []Result {
+	var symv ssa.Value
+	for _, v := range []ssa.Value{t.Low, t.High, t.Max} {
+		if v == nil {
+			continue
+		}
+		if tv := x.get(st, fr, v).(*Term); !tv.IsConst() {
+			symv = v
+			break
+		}
+	}
+	if symv == nil {
+		if !x.sliceOp(st, fr, t) {
+			return nil
+		}
+		return []Result{{St: st, Val: fr.locals[t]}}
+	}
+	// capacity bound
+	capv := 0
+	switch a := x.get(st, fr, t.X).(type) {
+	case *SliceV:
+		capv = a.Cap
+	case *StrV:
+		capv = len(a.S)
+	case *PtrV:
+		capv = int(t.X.Type().Underlying().(*types.Pointer).Elem().Underlying().(*types.Array).Len())
+	}
+	tv := x.toBV64(x.get(st, fr, symv).(*Term), symv.Type())
+	inRange := x.tf.BVCmp(OULe, tv, x.tf.BV(uint64(capv), 64))
+	if !x.check(st, inRange, "slice bounds out of range", t) {
+		return nil
+	}
+	var out []Result
+	saved := fr.locals[symv]
+	for v := 0; v <= capv; v++ {
+		c := x.tf.Eq(tv, x.tf.BV(uint64(v), 64))
+		if x.satPC(st, c) == "unsat" {
+			continue
+		}
+		s2 := st.clone()
+		s2.addPC(c)
+		fr.locals[symv] = x.tf.BV(uint64(v), x.get(st, fr, symv).(*Term).S.W)
+		rs := x.sliceFork(s2, fr, t)
+		fr.locals[symv] = saved
+		out = append(out, rs...)
+	}
+	return out
 }
 
 func (x *Exec) sliceOp(st *State, fr *Frame, t *ssa.Slice) bool {
